@@ -534,6 +534,9 @@ def r_atoms(mod, rep, R='R5.2'):
             if len(args) >= 2:
                 f = args[1]
                 ok = f[0] == 'call' and f[1] == A(N('Feature'), 'parse') and len(f[2]) == 1 and not any(x[0] == 'const' for x in subterms(f[2][0]))
+                if not ok and f == ('call', N('UnaryFeature'), (), ()):
+                    # "no feature" written out (the default of the field) on a path that read no feature text
+                    ok = not any(e2[0] == 'call' and e2[1][1] == A(N('Feature'), 'parse') for e2 in st.events)
                 if not ok:
                     conds = '; '.join('%s%s' % ('' if pol else 'not ', show(c)[:50]) for c, pol, _ in st.conds[-2:])
                     bad.append('Atom(.., %s) under %s' % (show(f)[:50], conds))
